@@ -166,7 +166,7 @@ Section Sync.
   Theorem process_unsynced s cx ip r s' rep tags :
     rx_unsynced s -> 0 <= r_seq_number r < 4294967296 ->
     tcp_process cx s ip r = Ok (s', rep, tags) ->
-    no_ack_reply rep /\ s_rx_buffer s' = s_rx_buffer s /\
+    no_ack_reply rep /\ s_rx_buffer s' = s_rx_buffer s /\ s_rx_fin_received s' = false /\
     ((rx_unsynced s' /\ match s_state s' with SynReceived | Established => False | _ => True end) \/
      (r_control r = CSyn /\ (s_state s' = SynReceived \/ s_state s' = Established) /\
       rx_synced S F (fun _ => False) (r_seq_number r) 0 s')).
@@ -179,7 +179,7 @@ Section Sync.
     apply obind_ok_inv in H. destruct H as (p1 & Hp1 & H).
     destruct p1 as [t1 []|t1 s1 rep1].
     2:{ inversion H; subst. destruct (ack_check_unsynced _ _ _ _ _ _ _ Hls Hp1) as (-> & Hrep).
-        split; [exact Hrep|]. split; [reflexivity|]. left. split; [exact Hun|].
+        split; [exact Hrep|]. split; [reflexivity|]. split; [exact Hfin|]. left. split; [exact Hun|].
         destruct Hls as [-> | ->]; exact I. }
     rewrite (window_unsynced cx s ip r Hls) in H. cbn [obind] in H.
     apply obind_ok_inv in H. destruct H as (((al & aof) & aall) & _ & H).
@@ -188,7 +188,8 @@ Section Sync.
     pose proof (transition_unsynced cx s ip r ctl al aof p3 Hls Hp3) as Htr.
     destruct p3 as [t3 s3|t3 s3 rep3].
     2:{ inversion H; subst. destruct Htr as (-> & He & Hst3).
-        split; [exact I|]. split; [destruct He as (_ & -> & _); reflexivity|]. left. split.
+        split; [exact I|]. split; [destruct He as (_ & -> & _); reflexivity|].
+        split; [destruct He as (_ & _ & -> & _); exact Hfin|]. left. split.
         - eapply unsynced_state_change; [exact He| |exact Hun].
           destruct Hst3 as [-> | ->]; [destruct Hls as [-> | ->]; exact I | exact I].
         - destruct Hst3 as [-> | ->]; [destruct Hls as [-> | ->]; exact I | exact I]. }
@@ -209,7 +210,7 @@ Section Sync.
       eapply frame_trans; [exact Hf5'|]. eapply frame_trans; [exact Hf5 | exact Hf4]. }
     rewrite payload_nil in H. cbn [obind] in H. inversion H; subst s' rep tags; clear H.
     destruct Hf73 as ((V1 & V2 & V3 & V4 & V5 & V6 & V7) & Vst).
-    split; [exact I|]. split; [congruence|]. right. split; [exact Hrc|].
+    split; [exact I|]. split; [congruence|]. split; [congruence|]. right. split; [exact Hrc|].
     split; [rewrite Vst; exact Y7|].
     (* the invariant holds for any stream: nothing has been received yet *)
     unfold rx_synced.
